@@ -13,6 +13,7 @@ bootstrap.ensure()
 
 ID = "C05"
 LEVEL = "exploration"
+TECHNIQUE = "runtime monitoring: _finish_apply hook oracle + icontract postconditions on Slice.then / Sort.then; exhaustive window and sort-term pairs"
 RULE = (
     "(1) exhaustive: all 63 windows (start 0..6, stop None or start..start+7) x 63 windows: Slice.then, "
     "Slice.simplify and the public rel[w1][w2] in the iteration engine and in the SQL engine are compared with "
